@@ -1,3 +1,286 @@
+//! Header map: real `ckb_shared::HeaderMap` (memory tier + sled backend) with
+//! synchronous spill steps at arbitrary points vs a plain map.
 use crate::*;
-pub fn run(_cx: &mut Ctx) {}
-pub fn replay(_case: &Value, _viol: &mut Vec<Violation>) {}
+use ckb_shared::types::header_map::HeaderMap;
+use ckb_shared::types::HeaderIndexView;
+use ckb_types::{core::EpochNumberWithFraction, packed::Byte32, U256};
+use std::collections::BTreeMap;
+use std::sync::atomic::AtomicBool;
+use std::sync::Arc;
+
+#[derive(Clone, Debug, PartialEq, Eq)]
+pub enum Op {
+    Insert(u64, u64), // key, version of the view
+    Get(u64),
+    Contains(u64),
+    Remove(u64),
+    Spill,
+}
+#[derive(Clone, Debug, PartialEq, Eq)]
+pub enum Ans {
+    Ins(bool),
+    Get(Option<u64>),
+    Cont(bool),
+    Unit,
+}
+
+fn key_hash(k: u64) -> Byte32 {
+    crate::orphan::hash_of(1000 + k)
+}
+/// a header view that differs in every field between versions (odd versions carry a skip hash)
+pub fn make_view(k: u64, ver: u64) -> HeaderIndexView {
+    let mut v = HeaderIndexView::new(
+        key_hash(k),
+        ver * 1000 + k + 1,
+        EpochNumberWithFraction::new(ver, k % 7, 10),
+        ver * 7777 + 1,
+        crate::orphan::hash_of(5000 + ver),
+        U256::from(ver * 1_000_003 + k),
+    );
+    if ver % 2 == 1 {
+        let target = HeaderIndexView::new(crate::orphan::hash_of(9000 + ver), 0, EpochNumberWithFraction::new(0, 0, 1), 0, Byte32::zero(), U256::zero());
+        let t2 = target.clone();
+        v.build_skip(0, move |_, _| Some(t2.clone()), move |_, _| Some(target.clone()));
+    }
+    v
+}
+
+fn op_coq(o: &Op) -> String {
+    match o {
+        Op::Insert(k, v) => format!("HInsert {} {}", coq_n(*k as u128), coq_n(*v as u128)),
+        Op::Get(k) => format!("HGet {}", coq_n(*k as u128)),
+        Op::Contains(k) => format!("HContains {}", coq_n(*k as u128)),
+        Op::Remove(k) => format!("HRemove {}", coq_n(*k as u128)),
+        Op::Spill => "HSpill".into(),
+    }
+}
+fn op_json(o: &Op) -> Value {
+    match o {
+        Op::Insert(k, v) => json!(["insert", k, v]),
+        Op::Get(k) => json!(["get", k]),
+        Op::Contains(k) => json!(["contains_key", k]),
+        Op::Remove(k) => json!(["remove", k]),
+        Op::Spill => json!(["limit_memory"]),
+    }
+}
+fn op_parse(v: &Value) -> Op {
+    let a = v.as_array().unwrap();
+    let n = |i: usize| a[i].as_u64().unwrap();
+    match a[0].as_str().unwrap() {
+        "insert" => Op::Insert(n(1), n(2)),
+        "get" => Op::Get(n(1)),
+        "contains_key" => Op::Contains(n(1)),
+        "remove" => Op::Remove(n(1)),
+        _ => Op::Spill,
+    }
+}
+fn ans_coq(a: &Ans) -> String {
+    match a {
+        Ans::Ins(b) => format!("AIns {}", coq_bool(*b)),
+        Ans::Get(o) => format!("AGet {}", coq_option(o, |x| coq_n(*x as u128))),
+        Ans::Cont(b) => format!("ACont {}", coq_bool(*b)),
+        Ans::Unit => "AUnit".into(),
+    }
+}
+
+pub struct Maps {
+    _rt: tokio::runtime::Runtime,
+    maps: BTreeMap<usize, HeaderMap>,
+    versions: u64,
+}
+impl Maps {
+    pub fn new() -> Self {
+        // a runtime nobody drives: the 5 s limit_memory timer task is spawned but never
+        // polled, so spills happen only where the harness puts them
+        let rt = tokio::runtime::Builder::new_current_thread().enable_time().build().unwrap();
+        Maps { _rt: rt, maps: BTreeMap::new(), versions: 6 }
+    }
+    fn get(&mut self, limit: usize) -> &HeaderMap {
+        let handle = ckb_async_runtime::Handle::new(self._rt.handle().clone(), None);
+        self.maps.entry(limit).or_insert_with(|| {
+            let dir = scratch_dir("C17");
+            HeaderMap::new(Some(dir), limit * std::mem::size_of::<HeaderIndexView>(), &handle, Arc::new(AtomicBool::new(true)))
+        })
+    }
+}
+
+type Obs = (Ans, Vec<(bool, bool)>);
+
+pub fn run_ops(maps: &mut Maps, limit: usize, keys: &[u64], ops: &[Op], viol: &mut Vec<Violation>, ctx: &Value) -> Vec<Obs> {
+    let versions = maps.versions;
+    let m = maps.get(limit);
+    let mut spec: BTreeMap<u64, u64> = BTreeMap::new();
+    let mut out = Vec::new();
+    let mut push = |what: String, step: usize, extra: Value| {
+        if viol.len() < 200 {
+            viol.push(Violation { what, detail: json!({"case": ctx, "step": step, "info": extra}), signature: None });
+        }
+    };
+    for (step, op) in ops.iter().enumerate() {
+        let ans = match op {
+            Op::Insert(k, v) => {
+                let r = m.insert(make_view(*k, *v)).is_some();
+                spec.insert(*k, *v);
+                Ans::Ins(r)
+            }
+            Op::Get(k) => {
+                let got = m.get(&key_hash(*k));
+                let want = spec.get(k).map(|v| make_view(*k, *v));
+                if got != want {
+                    push("get does not answer like the plain map".into(), step, json!({"key": k, "got": format!("{:?}", got), "expected": format!("{:?}", want)}));
+                }
+                // which version is it (for the model)
+                Ans::Get(got.and_then(|g| (0..versions).find(|v| make_view(*k, *v) == g).or(Some(999))))
+            }
+            Op::Contains(k) => {
+                let r = m.contains_key(&key_hash(*k));
+                if r != spec.contains_key(k) {
+                    push("contains_key does not answer like the plain map".into(), step, json!({"key": k, "got": r}));
+                }
+                Ans::Cont(r)
+            }
+            Op::Remove(k) => {
+                m.remove(&key_hash(*k));
+                spec.remove(k);
+                Ans::Unit
+            }
+            Op::Spill => {
+                m.verif_limit_memory();
+                Ans::Unit
+            }
+        };
+        let tiers: Vec<(bool, bool)> = keys.iter().map(|k| m.verif_tiers(&key_hash(*k))).collect();
+        for (i, k) in keys.iter().enumerate() {
+            if (tiers[i].0 || tiers[i].1) != spec.contains_key(k) {
+                push("a key is held by a tier although the plain map does not hold it (or the reverse)".into(), step, json!({"key": k, "tiers": tiers[i]}));
+            }
+        }
+        if matches!(op, Op::Spill) && tiers.iter().filter(|t| t.0).count() > limit {
+            push("after limit_memory the memory tier holds more than the limit".into(), step, json!({"tiers": tiers}));
+        }
+        out.push((ans, tiers));
+    }
+    // leave the map empty for the next sequence
+    for k in keys {
+        m.remove(&key_hash(*k));
+    }
+    if keys.iter().any(|k| m.contains_key(&key_hash(*k))) {
+        push("remove leaves a key behind".into(), ops.len(), json!({}));
+    }
+    out
+}
+
+fn emit(cx: &mut Ctx, maps: &mut Maps, limit: usize, keys: &[u64], ops: &[Op], to_coq: bool, stream: &str) {
+    let ctx = json!({"structure": "hmap", "stream": stream, "limit": limit, "keys": keys, "ops": ops.iter().map(op_json).collect::<Vec<_>>()});
+    let mut v = std::mem::take(&mut cx.viol);
+    let obs = run_ops(maps, limit, keys, ops, &mut v, &ctx);
+    cx.viol = v;
+    cx.evaluations += 1;
+    if ops.iter().filter(|o| matches!(o, Op::Insert(..) | Op::Remove(_) | Op::Spill)).count() >= 2 {
+        cx.distinct += 1;
+    }
+    if obs.iter().any(|o| o.1.iter().any(|t| t.0 && t.1)) {
+        cx.count("hmap_seq_key_in_both_tiers");
+    }
+    if to_coq {
+        let mut d = ctx.clone();
+        d["observed"] = json!(obs.iter().map(|o| json!({"answer": format!("{:?}", o.0), "tiers": o.1})).collect::<Vec<_>>());
+        if cx.samples.len() < 3 {
+            cx.samples.push(d.clone());
+        }
+        cx.case(
+            G_HMAP,
+            format!(
+                "mkHCase {} {} {} {}",
+                coq_nat(limit as u64),
+                coq_list(keys, |k| coq_n(*k as u128)),
+                coq_list(ops, op_coq),
+                coq_list(&obs, |(a, t)| format!("({}, {})", ans_coq(a), coq_list(t, |(x, y)| format!("({}, {})", coq_bool(*x), coq_bool(*y)))))
+            ),
+            d,
+        );
+        cx.count("hmap_coq_cases");
+    }
+}
+
+pub fn run(cx: &mut Ctx) {
+    let mut maps = Maps::new();
+    // corpus: a spilled key re-inserted (both tiers), read, removed
+    emit(cx, &mut maps, 1, &[1, 2], &[Op::Insert(1, 0), Op::Insert(2, 0), Op::Spill, Op::Insert(1, 1), Op::Get(1), Op::Spill, Op::Contains(2), Op::Remove(1), Op::Get(1), Op::Get(2)], true, "corpus");
+    // ---- bounded-exhaustive: 3 keys x 2 versions, every sequence (spill steps included) up to length L
+    let keys = [1u64, 2, 3];
+    let mut alphabet: Vec<Op> = Vec::new();
+    for k in keys {
+        alphabet.push(Op::Insert(k, 0));
+        alphabet.push(Op::Insert(k, 1));
+    }
+    for k in keys {
+        alphabet.push(Op::Get(k));
+        alphabet.push(Op::Contains(k));
+        alphabet.push(Op::Remove(k));
+    }
+    alphabet.push(Op::Spill);
+    let n = alphabet.len() as u64;
+    let len_max = if cx.thorough { 5 } else { 4 };
+    let mut cnt = 0u64;
+    for limit in [1usize, 2] {
+        for len in 1..=len_max {
+            for code in 0..n.pow(len) {
+                let mut c = code;
+                let mut ops = Vec::new();
+                for _ in 0..len {
+                    ops.push(alphabet[(c % n) as usize].clone());
+                    c /= n;
+                }
+                if len > 1 && !matches!(ops[0], Op::Insert(..)) {
+                    continue;
+                }
+                // append a read of every key so the final state is always observed
+                for k in keys {
+                    ops.push(Op::Get(k));
+                }
+                cnt += 1;
+                let to_coq = len == len_max && cnt % (if cx.thorough { 4000 } else { 150 }) == 0;
+                emit(cx, &mut maps, limit, &keys, &ops, to_coq, "exhaustive-3");
+                cx.count("hmap_seq_exhaustive");
+            }
+        }
+    }
+    // ---- random long sequences, limits 1..4, 8 keys
+    let n_rand = if cx.thorough { 5000 } else { 500 };
+    let keys8: Vec<u64> = (1..=8).collect();
+    for _ in 0..n_rand {
+        let limit = cx.rng.range(1, 4) as usize;
+        let nops = cx.rng.range(15, 70);
+        let mut ops = Vec::new();
+        for _ in 0..nops {
+            let k = cx.rng.range(1, 8);
+            let r = cx.rng.below(100);
+            ops.push(if r < 38 {
+                Op::Insert(k, cx.rng.below(6))
+            } else if r < 58 {
+                Op::Get(k)
+            } else if r < 68 {
+                Op::Contains(k)
+            } else if r < 80 {
+                Op::Remove(k)
+            } else {
+                Op::Spill
+            });
+        }
+        emit(cx, &mut maps, limit, &keys8, &ops, true, "random");
+        cx.count("hmap_seq_random");
+    }
+    drop(maps);
+    let _ = std::fs::remove_dir_all(out_dir("C17").join(format!("scratch-{}", std::process::id())));
+}
+
+pub fn replay(case: &Value, viol: &mut Vec<Violation>) {
+    let ops: Vec<Op> = case["ops"].as_array().unwrap().iter().map(op_parse).collect();
+    let keys: Vec<u64> = case["keys"].as_array().unwrap().iter().map(|k| k.as_u64().unwrap()).collect();
+    let mut maps = Maps::new();
+    let obs = run_ops(&mut maps, case["limit"].as_u64().unwrap() as usize, &keys, &ops, viol, case);
+    println!("answers: {:?}", obs.iter().map(|o| &o.0).collect::<Vec<_>>());
+    drop(maps);
+    let _ = std::fs::remove_dir_all(out_dir("C17").join(format!("scratch-{}", std::process::id())));
+}
